@@ -17,3 +17,6 @@ CONSTANTS
   MaskSasl = TRUE
   MaskOnReloadFail = TRUE
   NoDecodeEcho = TRUE
+  Spellings = {"canon", "cap", "upper", "mixed"}
+  MaskDecoded = TRUE
+  ReadFailIsError = TRUE
